@@ -16,7 +16,7 @@ import (
 // are the same expression.  (With another cursor in the second test, `-\<newline>` became an identifier.)
 func c06PrefixCursor(c *core.Check) {
 	p := c.Prog
-	r := c.Rule("R15", "a byte test and the prefix test that refines it look at the same place: in css/parser, for every bytes.HasPrefix(src[j:], K) with a constant K that is reached only through the true side of a comparison src[i] == K[0], i and j are the same expression", 2)
+	r := c.Rule("R15", "a byte test and the prefix test that refines it look at the same place: in css/parser, for every bytes.HasPrefix(src[j:], K) with a constant K that is reached only through the true side of a comparison src[i] == K[0], i and j are the same expression", 1)
 	n := 0
 	for _, fn := range p.FuncsOfPkg("css/parser") {
 		fn := fn
